@@ -120,11 +120,10 @@ func init() {
 			var d map[string]json.RawMessage
 			json.Unmarshal(drv, &d)
 			if why := nonTermination(real); why != "" {
-				v := core.Fail("hang@alias-self-merge", "alias expansion does not return on this document ("+why+")")
 				if _, ok := d["outOfFuel"]; !ok {
-					v.What += " — and the model expected " + string(drv)
+					return core.Fail("hang@reset", "alias expansion does not return on this document ("+why+") although the model answers "+string(drv))
 				}
-				return v
+				return core.Fail("hang@alias-self-merge", "alias expansion does not return on this document ("+why+"), as the model predicts")
 			}
 			if v := core.CrashVerdict(real); v != nil {
 				return v
